@@ -87,7 +87,8 @@ def gen_queries(tier, seed):
         # every ordered selection of up to 3 of its dimensions, by letter / by name
         for sel in ordered_subsets(xs, min(3, len(xs))):
             keys = [k if r.random() < 0.5 else NAME[k] for k in sel]
-            lines.append((f"ds subset ${h} $10 " + " ".join(keys)).rstrip()); h += 1
+            verb = "subsetiter" if (keys and r.random() < 0.3) else "subset"
+            lines.append((f"ds {verb} ${h} $10 " + " ".join(keys)).rstrip()); h += 1
         lines.append(f"ds subsetnone ${h} $10"); h += 1
         lines.append(f"ds copy ${h} $10"); h += 1
         for k in letters + "z":
@@ -189,5 +190,19 @@ def gen_histories(tier, seed):
                     lines.append(f"ds replace! ${a} {k if r.random() < 0.5 else NAME[k]} ${H[r.choice(keys)]}")
             lines.append("dumpall")
             stats["ops"] += 1
+        if r.random() < 0.5 and live:
+            # one dimension dropped and another one added in place, nothing asked in between
+            a = live[0]
+            lines.append(f"ds drop! ${a} {r.choice('abcde')}")
+            lines.append(f"ds expand! ${a} ${H[r.choice(keys)]}")
+            lines.append("dumpall")
+        # what the sets answer after the history: lookups by letter and name agree with the order shown
+        for h_ in live[:4]:
+            lines.append(f"ds query ${h_}")
+            for k in "abcdeAB":
+                key = k if r.random() < 0.5 else NAME.get(k, k)
+                lines.append(f"ds contains ${h_} {key}")
+                lines.append(f"ds size ${h_} {key}")
+                lines.append(f"ds index ${h_} {key}")
         stats["cases"] += 1
     return lines, stats
